@@ -129,10 +129,33 @@ def generate():
     scs = read("rtmp/src/messages/types/set_chunk_size.rs")
     items.append(("MAX_CHUNK_SIZE_MSG", const(scs, "MAX_SIZE", 2147483647, warnings), "set_chunk_size.rs MAX_SIZE"))
 
+    # handshake constants
+    hsrc = read("rtmp/src/handshake/mod.rs")
+    items.append(("HS_PACKET_SIZE", const(hsrc, "RTMP_PACKET_SIZE", 1536, warnings), "handshake RTMP_PACKET_SIZE"))
+    def re_int(pat, default, what):
+        m2 = re.search(pat, hsrc, re.S)
+        if not m2:
+            warnings.append("handshake %s not located; kept default %d" % (what, default))
+            return default
+        return num(m2.group(1))
+    items.append(("HS_OFFSET_MOD", re_int(r"fn\s+get_client_digest_offset.*?%\s*" + NUM, 728, "client offset modulus"), "get_client_digest_offset"))
+    items.append(("HS_CLIENT_OFFSET_BASE", re_int(r"fn\s+get_client_digest_offset.*?%\s*" + NUM + r"\s*\)\s*\+\s*" + NUM.replace("(", "(?:", 1), 12, "client offset base")
+                  if False else re_int(r"fn\s+get_client_digest_offset.*?%\s*[0-9_]+\s*\)\s*\+\s*" + NUM, 12, "client offset base"), "get_client_digest_offset"))
+    items.append(("HS_SERVER_OFFSET_MOD", re_int(r"fn\s+get_server_digest_offset.*?%\s*" + NUM, 728, "server offset modulus"), "get_server_digest_offset"))
+    items.append(("HS_SERVER_OFFSET_BASE", re_int(r"fn\s+get_server_digest_offset.*?%\s*[0-9_]+\s*\)\s*\+\s*" + NUM, 776, "server offset base"), "get_server_digest_offset"))
+    items.append(("HS_VERSION_BYTE", re_int(r"let\s+mut\s+output\s*=\s*vec!\[\s*" + NUM, 3, "version byte"), "generate_outbound_p0_and_p1"))
+    crud = re.search(r"const\s+RANDOM_CRUD[^=]*=\s*\[(.*?)\];", hsrc, re.S)
+    crud_vals = [num(x) for x in re.findall(NUM, crud.group(1))] if crud else None
+    if not crud_vals or len(crud_vals) != 32:
+        warnings.append("RANDOM_CRUD not located; kept default")
+        crud_vals = [0xf0, 0xee, 0xc2, 0x4a, 0x80, 0x68, 0xbe, 0xe8, 0x2e, 0x00, 0xd0, 0xd1, 0x02, 0x9e, 0x7e, 0x57, 0x6e, 0xec, 0x5d, 0x2d,
+                     0x29, 0x80, 0x6f, 0xab, 0x93, 0xb8, 0xe6, 0x36, 0xcf, 0xeb, 0x31, 0xae]
+
     lines = ["(* GENERATED by lib/gen_consts.py from /repo sources - do not edit. *)",
              "From Coq Require Import NArith List.", "Import ListNotations.", "Open Scope N_scope.", ""]
     for nm, v, c in items:
         lines.append("Definition %s : N := %d.  (* %s *)" % (nm, v, c))
+    lines.append("Definition HS_RANDOM_CRUD : list N := [%s]." % "; ".join(str(v) for v in crud_vals))
     lines.append("")
     lines.append("(* get_csid_for_message_type (serializer.rs) *)")
     lines.append("Definition csid_table : list (N * N) := [%s]." %
